@@ -444,7 +444,25 @@ func (nr *netRun) checkC11(x *xfer) {
 	if len(r.Faults) == 0 {
 		sa, okA := nr.A.State(x.chid)
 		sb, okB := nr.B.State(x.chid)
-		if okA && okB && sa.Status == datatransfer.Ongoing && sb.Status == datatransfer.Ongoing {
+		// only when every announced pause/resume actually reached the peer (a resume issued while the requester is away
+		// is legitimately queued in the transport until the next request)
+		allDelivered := true
+		for _, op := range nr.ops {
+			if op.X != x || (op.Kind != "Pause" && op.Kind != "Resume") || op.Call.Err != nil || !op.Call.Returned {
+				continue
+			}
+			peerN := nr.other(op.Node)
+			got := false
+			for _, w := range peerN.Wire {
+				if w.Dir == "recv" && w.Sum.Update && w.Sum.TID == x.chid.ID && w.Sum.Paused == (op.Kind == "Pause") && w.Step >= op.Call.S0 {
+					got = true
+				}
+			}
+			if !got {
+				allDelivered = false
+			}
+		}
+		if okA && okB && sa.Status == datatransfer.Ongoing && sb.Status == datatransfer.Ongoing && allDelivered {
 			r.Probe("both-ongoing-at-quiescence")
 			if sa.IPaused != sb.IPaused || sa.RPaused != sb.RPaused {
 				what := "initiator-flag"
@@ -456,6 +474,28 @@ func (nr *netRun) checkC11(x *xfer) {
 					for _, g := range n.AllGSCalls {
 						if g.Kind == "unpause" && g.Err == "request is not paused" {
 							cause = "|after-unpause-of-a-not-yet-paused-request-failed"
+						}
+					}
+				}
+				if cause == "" && what == "responder-flag" && sb.RPaused && !sa.RPaused {
+					// F8: the responder paused itself at the data limit of a pull; the notice travels only as an extension of
+					// the block's graphsync response, and the initiator had paused (= cancelled at the responder) its request
+					// at that moment, so graphsync dropped the message
+					limStep := -1
+					for _, e := range nr.B.EventsOf(x.chid) {
+						if e.Code == datatransfer.DataLimitExceeded {
+							limStep = e.Step
+						}
+					}
+					if limStep >= 0 && x.pull {
+						pausedByA := false
+						for _, g := range nr.A.AllGSCalls {
+							if g.Kind == "pause" && g.Step <= limStep && g.Err == "" {
+								pausedByA = true
+							}
+						}
+						if pausedByA {
+							cause = "|limit-pause-notice-lost-while-initiator-had-paused-its-request"
 						}
 					}
 				}
@@ -669,14 +709,23 @@ func (nr *netRun) checkC19(x *xfer) {
 		for _, w := range b.Wire {
 			if w.Dir == "recv" && w.Sum.Req && w.Sum.Voucher && w.Sum.TID == x.chid.ID && w.Life == b.life {
 				enc := w.Sum.VType + ":" + w.Sum.VEnc
-				recvN := 0
+				// a voucher that arrives before the responder knows the channel (a pull's opening request travels by
+				// graphsync, the voucher by libp2p: no order between them) is refused and cannot be recorded
+				openStep := -1
+				if evs := b.EventsOf(x.chid); len(evs) > 0 {
+					openStep = evs[0].Step
+				}
+				recvN, recvKnown := 0, 0
 				for _, w2 := range b.Wire {
 					if w2.Dir == "recv" && w2.Sum.Req && w2.Sum.Voucher && w2.Sum.TID == x.chid.ID && w2.Sum.VType+":"+w2.Sum.VEnc == enc {
 						recvN++
+						if openStep >= 0 && w2.Step >= openStep {
+							recvKnown++
+						}
 					}
 				}
-				if n := count(sb.Vouchers, enc); n != recvN {
-					r.Failf("C19", "received-voucher-log", fmt.Sprintf("received=%d|recorded=%d", recvN, n), "responder received voucher %s %d time(s) but records it %d time(s)", enc, recvN, n)
+				if n := count(sb.Vouchers, enc); n > recvN || n < recvKnown {
+					r.Failf("C19", "received-voucher-log", fmt.Sprintf("received=%d|recorded=%d", recvN, n), "responder received voucher %s %d time(s) (%d after it announced the channel) but records it %d time(s)", enc, recvN, recvKnown, n)
 				}
 			}
 		}
